@@ -1,6 +1,8 @@
 package main
 
 import (
+	"os"
+	"strconv"
 	"fmt"
 	"go/types"
 	"math/big"
@@ -41,6 +43,9 @@ type Exec struct {
 	hashes   []*hashEntry
 	inInit   int
 	lastPanic string
+	hashAx   map[[2]int]*Term
+	hashCnt  int
+	hexExp   map[string]*Enc
 	stackNames []string
 
 	nondets  map[string]*Term // harness-named symbolic inputs
@@ -54,9 +59,12 @@ type Exec struct {
 }
 
 type hashEntry struct {
-	fn  string
-	pre []*Term
-	out *Term
+	fn   string
+	key  string
+	pre  []*Term
+	outs []*Term
+	id   int
+	concrete bool
 }
 
 type Violation struct {
@@ -114,6 +122,7 @@ type Run struct {
 	deadline  time.Time
 	smtLog    string
 	initLog   func(string)
+	seed      int
 }
 
 func (ex *Exec) noteFunc(fn *ssa.Function) {
@@ -443,6 +452,10 @@ func (r *Run) worker(id int) {
 	if err != nil {
 		panic(err)
 	}
+	solver.seed = r.seed
+	if err := solver.WithFallback(incTimeoutMs); err != nil {
+		panic(err)
+	}
 	if r.smtLog != "" {
 		// only the first worker logs
 	}
@@ -672,3 +685,11 @@ func traceString(t []dec) string {
 }
 
 func itoa(i int) string { return fmt.Sprint(i) }
+
+var incTimeoutMs = func() int {
+	if v := os.Getenv("GOSYM_INC_MS"); v != "" {
+		n, _ := strconv.Atoi(v)
+		return n
+	}
+	return 1500
+}()
